@@ -71,6 +71,23 @@ PROPS = {
              "contain a nil optional below the top level, an empty list below the top level, or lists with >= 2 elements at two nesting levels; "
              "distinct by case hash.",
     ),
+    "C12": dict(
+        level="exploration",
+        technique="property-based testing (rapid): adversarial value classes; page statistics compared with values decoded independently from the same page",
+        level_text="Exploration: generated pages over adversarial value multisets (all-negative, two-value domains, NaN/Inf heavy, strings around the "
+                   "writer's internal sentinel, unsigned values with the high bit set, all-null pages); soundness of min/max and exactness of "
+                   "null_count judged against an independent decode of each page.",
+        level_note="Trusted: pqref page parser. Tightness of min/max is not demanded (only soundness), NaN values are excluded from the bound check as the property states.",
+        fixtures=["flat24", "nest", "tiny"],
+        gen_anchored=True,
+        stages=[dict(test="TestC12", kind="rapid", quick=3200, thorough=64000)],
+        replay="TestReplayC12",
+        rule="rapid workloads on flat24/nest/tiny with a value class per case in {mixed, neg, tiny, nan, sentinel}, null probability in "
+             "{10,33,80}%, page size 1..8 for half the cases; each page's Statistics (min_value/max_value and legacy min/max if present, "
+             "null_count) is checked against the page's own values decoded by pqref: null_count = #(def < max) for columns with levels (absent or 0 "
+             "for required), min <= v <= max for every non-null non-NaN v in the column order (signed / unsigned via converted type / IEEE / bytewise), "
+             "min/max absent when the page has no non-null value. Non-trivial: a page with >= 2 distinct non-NaN values under a min/max check, or an all-null page; distinct by case hash.",
+    ),
 }
 
 
